@@ -1157,7 +1157,11 @@ int EGLPNUM_TYPENAME_ILLwrite_mps (
 	EGLPNUM_TYPENAME_ILLprint_report (lp, "OBJSENSE\n  %s\n",
 									 (lp->objsense == EGLPNUM_TYPENAME_ILL_MIN) ? "MIN" : "MAX");
 	EGLPNUM_TYPENAME_ILLprint_report (lp, "OBJNAME\n  %s\n", objname);
-	if (lp->refrowname)
+	lprows = &lp_rows;
+	rval = EGLPNUM_TYPENAME_ILLlp_rows_init (lprows, lp, 0);
+	ILL_CLEANUP_IF (rval);
+	/* an empty row is not written: do not announce it as the reference row */
+	if (lp->refrowname && (lp->refind == -1 || lprows->rowcnt[lp->refind] != 0))
 	{
 		EGLPNUM_TYPENAME_ILLprint_report (lp, "REFROW\n");
 		EGLPNUM_TYPENAME_ILLprint_report (lp, " %s\n", lp->refrowname);
@@ -1171,9 +1175,6 @@ int EGLPNUM_TYPENAME_ILLwrite_mps (
 		EGLPNUM_TYPENAME_ILLprint_report (lp, " N  %s\n", lp->refrowname);
 	}
 
-	lprows = &lp_rows;
-	rval = EGLPNUM_TYPENAME_ILLlp_rows_init (lprows, lp, 0);
-	ILL_CLEANUP_IF (rval);
 	for (i = 0; i < lp->nrows; i++)
 	{
 		if (lprows->rowcnt[i] == 0)
